@@ -67,7 +67,7 @@ class Check(BaseCheck):
 
     def correspond(self, drv, stats):
         fails = []
-        n_tri, n_tet = (20, 8) if self.quick else (300, 100)
+        n_tri, n_tet = (20, 8) if self.quick else (1500, 400)
         for case in self.problems(self.seed, n_tri, n_tet):
             v, t = case["v"], case["t"]
             gen.use(case)
@@ -113,7 +113,7 @@ class Check(BaseCheck):
                 return fails
         # kernel / diagonal
         rng = gen.rng_for(self.seed, "c07k")
-        for k in range(12 if self.quick else 200):
+        for k in range(12 if self.quick else 1000):
             nv, ne = int(rng.integers(3, 9)), int(rng.integers(2, 7))
             evecs = rng.normal(size=(nv, ne)); evals = np.abs(rng.normal(size=ne)); evals.sort()
             n = int(rng.integers(1, ne + 1)); q = int(rng.integers(0, nv))
